@@ -1,5 +1,6 @@
 import XalanModel.C12.NodeListProofs
 import XalanModel.C12.StructuralProofs
+import XalanModel.C12.MultiDocProofs
 /-!
 # C12 — node-sets are duplicate-free sets in one consistent document order
 
@@ -306,10 +307,10 @@ touches the last group: the result is `l₁ ++ r` with `r` the document-ordered 
 case `$a | $b` with all nodes of one document arriving after those of the other.)  Missing: any insertion of
 a node whose document is not the last group. -/
 theorem multiDoc_lastGroup_partial (env : Env) (d : Nat) (ha : AfterIsIndex env d) (l₁ l₂ : List NodeRef)
-    (n : NodeRef) (hne : l₁ ≠ []) (hl₁ : ∀ c ∈ l₁, c.doc ≠ d) (hl₂ : DocOrderedSet d l₂) (hn : n.doc = d)
-    (hn0 : n.idx ≠ 0) :
+    (n : NodeRef) (hg : env.groupAware = false) (hne : l₁ ≠ []) (hl₁ : ∀ c ∈ l₁, c.doc ≠ d) (hl₂ : DocOrderedSet d l₂)
+    (hn : n.doc = d) (hn0 : n.idx ≠ 0) :
     ∃ r, addNodeInDocOrder env (l₁ ++ l₂) n = l₁ ++ r ∧ DocOrderedSet d r ∧ ∀ m, m ∈ r ↔ m = n ∨ m ∈ l₂ :=
-  lastGroup_good ha hne hl₁ hl₂ hn hn0
+  lastGroup_good ha hg hne hl₁ hl₂ hn hn0
 
 /-- the environment of the indexed representations: every document indexed, `isNodeAfter` = index comparison -/
 def indexedEnv : Env := { indexed := fun _ => true, after := fun a b => decide (a.idx > b.idx) }
@@ -332,6 +333,125 @@ theorem docNode_appended_counterexample :
     addNodeInDocOrder indexedEnv [⟨0, 3⟩] ⟨0, 0⟩ = [⟨0, 3⟩, ⟨0, 0⟩] ∧
     addNodeInDocOrder { indexedEnv with indexed := fun _ => false } [⟨0, 3⟩] ⟨0, 0⟩ = [⟨0, 3⟩, ⟨0, 0⟩] ∧
     (union indexedEnv [[⟨0, 3⟩, ⟨0, 5⟩], [⟨0, 0⟩]]).nodes = [⟨0, 3⟩, ⟨0, 5⟩, ⟨0, 0⟩] := by decide
+
+/-! ## several documents, with the group-aware search (`proposed/C12-multidoc-groups.diff`) -/
+
+/-- **Several documents — full statement, for the repaired search.**  `GroupedSet l`: `l` is a sequence of runs,
+one per document, each a non-empty duplicate-free document-ordered set — i.e. nodes of different documents are
+never interleaved and no node occurs twice.  With `Env.groupAware` (the linear search skips foreign nodes until it
+reaches the run of the node's document and stops at the end of that run; documents are ordered by first
+appearance) one ordered insert of *any* node — any document, document nodes included, whichever of the three
+searches and the document-node shortcut runs — keeps a grouped set grouped and adds exactly that node. -/
+theorem multiDoc_grouped (env : Env) (hg : env.groupAware = true) (ha : ∀ d, AfterIsIndex env d)
+    (l : List NodeRef) (n : NodeRef) (hl : GroupedSet l) :
+    GroupedSet (addNodeInDocOrder env l n) ∧ ∀ m, m ∈ addNodeInDocOrder env l n ↔ m = n ∨ m ∈ l :=
+  addNodeInDocOrder_grouped_good hg ha n hl
+
+/-- … and so does every insertion history over any number of documents. -/
+theorem multiDoc_history_grouped (env : Env) (hg : env.groupAware = true) (ha : ∀ d, AfterIsIndex env d)
+    (ns : List NodeRef) (l : List NodeRef) (hl : GroupedSet l) :
+    GroupedSet (ns.foldl (addNodeInDocOrder env) l) ∧ ∀ m, m ∈ ns.foldl (addNodeInDocOrder env) l ↔ m ∈ l ∨ m ∈ ns := by
+  induction ns generalizing l with
+  | nil => simpa using hl
+  | cons n ns ih =>
+    have h1 := multiDoc_grouped env hg ha l n hl
+    have h2 := ih _ h1.1
+    simp only [List.foldl_cons]
+    refine ⟨h2.1, fun m => ?_⟩
+    rw [h2.2 m, h1.2 m, List.mem_cons]
+    constructor
+    · rintro ((h | h) | h)
+      · exact Or.inr (Or.inl h)
+      · exact Or.inl h
+      · exact Or.inr (Or.inr h)
+    · rintro (h | h | h)
+      · exact Or.inl (Or.inr h)
+      · exact Or.inl (Or.inl h)
+      · exact Or.inr h
+
+example : GroupedSet [⟨0, 3⟩, ⟨0, 5⟩, ⟨1, 0⟩, ⟨1, 2⟩] :=
+  ⟨[(0, [⟨0, 3⟩, ⟨0, 5⟩]), (1, [⟨1, 0⟩, ⟨1, 2⟩])],
+   ⟨by decide, by intro r hr; simp at hr; rcases hr with h | h <;> subst h <;> exact ⟨by simp, ⟨by decide, by decide⟩⟩⟩, rfl⟩
+
+/-- the two witnesses of the as-written code come out right with the repaired search -/
+example : addNodeInDocOrder { indexedEnv with groupAware := true } [⟨0, 3⟩, ⟨1, 2⟩] ⟨0, 4⟩ = [⟨0, 3⟩, ⟨0, 4⟩, ⟨1, 2⟩] ∧
+    addNodeInDocOrder { indexedEnv with groupAware := true } [⟨0, 3⟩, ⟨0, 5⟩, ⟨1, 2⟩] ⟨0, 3⟩ = [⟨0, 3⟩, ⟨0, 5⟩, ⟨1, 2⟩] := by decide
+
+/-! ## location steps -/
+
+/-- **`XPath::step` merging.**  The per-context-node results of the rest of a path (each a document-ordered set
+of `d`, as delivered by the recursive call), merged the way `step` does it (skip empty, swap the first in, merge
+the others with `addNodesInDocOrder`, `setDocumentOrder`), give a list flagged document order that is the
+duplicate-free document-ordered set of all of them — the same list `XPath::Union` builds from them. -/
+theorem step_merge_sortedSet (env : Env) (d : Nat) (ha : AfterIsIndex env d) (results : List (List NodeRef))
+    (hr : ∀ o ∈ results, Operand env d o) :
+    (stepMerge env results).order = .document ∧ DocOrderedSet d (stepMerge env results).nodes ∧
+      (∀ m, m ∈ (stepMerge env results).nodes ↔ ∃ o ∈ results, m ∈ o) ∧
+      (stepMerge env results).nodes = (union env results).nodes := by
+  have hu := union_spec env d ha results hr
+  -- the fold of `step` and the fold of `Union` hold the same nodes, and step's flag is "document" once non-empty
+  have key : ∀ (rs : List (List NodeRef)) (q u : NList), q.nodes = u.nodes → (q.nodes ≠ [] → q.order = .document) →
+      ((rs.foldl (fun (q : NList) mnl =>
+          if mnl.isEmpty then q
+          else if !q.nodes.isEmpty then { addNodesInDocOrderMutable env q ⟨mnl, .document⟩ with order := .document }
+          else ⟨mnl, .document⟩) q).nodes =
+        (rs.foldl (fun acc o => addNodesInDocOrderMutable env acc ⟨o, .document⟩) u).nodes) ∧
+      ((rs.foldl (fun (q : NList) mnl =>
+          if mnl.isEmpty then q
+          else if !q.nodes.isEmpty then { addNodesInDocOrderMutable env q ⟨mnl, .document⟩ with order := .document }
+          else ⟨mnl, .document⟩) q).nodes ≠ [] →
+        (rs.foldl (fun (q : NList) mnl =>
+          if mnl.isEmpty then q
+          else if !q.nodes.isEmpty then { addNodesInDocOrderMutable env q ⟨mnl, .document⟩ with order := .document }
+          else ⟨mnl, .document⟩) q).order = .document) := by
+    intro rs
+    induction rs with
+    | nil => intro q u h1 h2; exact ⟨h1, h2⟩
+    | cons mnl rs ih =>
+      intro q u h1 h2
+      simp only [List.foldl_cons]
+      apply ih
+      · cases hm : mnl with
+        | nil =>
+          simp [addNodesInDocOrderMutable, addNodesInDocOrderBase, h1]
+          split <;> simp_all
+        | cons a t =>
+          by_cases hq : q.nodes = []
+          · have hu' : u.nodes = [] := by rw [← h1]; exact hq
+            simp [addNodesInDocOrderMutable, hq, hu']
+          · have hu' : u.nodes ≠ [] := by rw [← h1]; exact hq
+            simp [addNodesInDocOrderMutable, addNodesInDocOrderBase, hu', h1]
+      · cases hm : mnl with
+        | nil => simpa using h2
+        | cons a t =>
+          by_cases hq : q.nodes = []
+          · simp [hq]
+          · simp [hq]
+  have k := key results ⟨[], .unknown⟩ NList.empty rfl (by simp)
+  have hnodes : (stepMerge env results).nodes = (union env results).nodes := by
+    unfold stepMerge union
+    simp only
+    split <;> exact k.1
+  refine ⟨?_, by rw [hnodes]; exact hu.2.1, fun m => by rw [hnodes]; exact hu.2.2 m, hnodes⟩
+  unfold stepMerge
+  simp only
+  split
+  · rfl
+  · rename_i hne
+    exact k.2 (by simpa using hne)
+
+/-- **Reverse axes.**  The last step of a path hands over the axis result; for a reverse axis it is the
+document-ordered set reversed and flagged reverse-order, and `step` delivers it re-reversed and flagged document
+order; a forward-axis result is delivered as it is; an empty one is flagged document order. -/
+theorem step_reverseAxis (d : Nat) (l : List NodeRef) (_hl : DocOrderedSet d l) (hne : l ≠ []) :
+    stepFinish ⟨l.reverse, .reverse⟩ = ⟨l, .document⟩ ∧ stepFinish ⟨l, .document⟩ = ⟨l, .document⟩ ∧
+    stepFinish ⟨[], .unknown⟩ = ⟨[], .document⟩ := by
+  refine ⟨?_, ?_, rfl⟩
+  · simp [stepFinish, NList.reverse, hne]
+  · simp [stepFinish, hne]
+
+example : stepMerge indexedEnv [[⟨0, 4⟩, ⟨0, 7⟩], [], [⟨0, 2⟩, ⟨0, 7⟩, ⟨0, 9⟩]] =
+    ⟨[⟨0, 2⟩, ⟨0, 4⟩, ⟨0, 7⟩, ⟨0, 9⟩], .document⟩ := by decide
 
 /-- with `proposed/C12-docnode-first.diff` the document node takes its place at the front (and
 `addNodeInDocOrder_sortedSet` covers it: `Insertable` then holds for the document node too) -/
